@@ -54,6 +54,8 @@ var (
 	numericTypeTok = regexp.MustCompile(`^(i32|u32|f32|f16|vec[234][iufh]?|mat[234]x[234][fh]?)$`)
 )
 
+var delimName = map[string]string{")": "paren", "]": "bracket", "}": "brace"}
+
 // where computes the context tags of token i.
 func (f *File) where(i int) []string {
 	var w []string
@@ -73,6 +75,9 @@ func (f *File) where(i int) []string {
 		}
 	} else {
 		w = append(w, "decl:"+d.Kind)
+		if d.Kind == "const_assert" {
+			w = append(w, "const_assert")
+		}
 	}
 	if inf.Continuing {
 		w = append(w, "continuing")
@@ -103,11 +108,29 @@ func (f *File) where(i int) []string {
 			w = appendUniq(w, "index")
 		case t.Tmpl == 1:
 			w = appendUniq(w, "template")
+			if f.text(f.Info[e].Match+1) == "(" {
+				w = appendUniq(w, "ctor-template")
+			}
 		}
 	}
 	if inf.Block > 0 {
-		if s := f.StmtStart(i); f.text(s) == "const" {
+		switch s := f.StmtStart(i); f.text(s) {
+		case "const":
 			w = appendUniq(w, "const-init")
+		case "const_assert":
+			w = appendUniq(w, "const_assert")
+		}
+		if s := f.StmtStart(i); (f.text(s) == "let" || f.text(s) == "const") && f.Info[s].Encl >= 0 && f.text(s+2) == ":" && i > s+2 {
+			// between ':' and '=' of a let / const statement
+			ann := true
+			for k := s + 3; k <= i; k++ {
+				if f.Toks[k].Text == "=" && f.Info[k].Encl == f.Info[s].Encl {
+					ann = false
+				}
+			}
+			if ann {
+				w = appendUniq(w, "let-annotation")
+			}
 		}
 		if !f.RValue(i) {
 			w = appendUniq(w, "not-rvalue")
@@ -118,7 +141,47 @@ func (f *File) where(i int) []string {
 	if inf.InAttr {
 		w = appendUniq(w, "attribute")
 	}
+	if f.logicRHS(i) {
+		w = appendUniq(w, "logic-rhs")
+	}
 	return w
+}
+
+// logicRHS reports whether token i lies in the right operand of a
+// short-circuit operator ("a || ..." / "a && ...").
+func (f *File) logicRHS(i int) bool {
+	for j := i; j >= 0; j = f.Info[j].Encl {
+		level := f.Info[j].Encl
+		for k := j - 1; k > level && k > 0; k-- {
+			if f.Info[k].Encl != level {
+				continue
+			}
+			t := f.Toks[k]
+			if t.Kind == Punct && (t.Text == ";" || t.Text == "{" || t.Text == "}" || t.Text == "," || t.Text == "=") {
+				break
+			}
+			if t.Kind == Punct && (t.Text == "||" || t.Text == "&&") {
+				return true
+			}
+		}
+		if level < 0 || f.Toks[level].Text == "{" {
+			break
+		}
+	}
+	return false
+}
+
+// BreakAll applies the rule at every applicable site (for tests and for
+// building replay files).
+func (f *File) BreakAll(rule string) []*Breaking {
+	if !f.Structured {
+		return nil
+	}
+	var out []*Breaking
+	for _, s := range f.breakSites(rule, "zq_undeclared") {
+		out = append(out, f.apply(s))
+	}
+	return out
 }
 
 func appendUniq(l []string, s string) []string {
@@ -427,7 +490,7 @@ func (f *File) breakSites(rule string, fresh string) []breakSite {
 			switch t.Text {
 			case ")", "]", "}":
 				if t.Tmpl == 0 {
-					out = append(out, breakSite{rule: rule, sub: "drop" + t.Text, tok: i, lo: t.Off, hi: t.End, repl: "", expTok: i + 1})
+					out = append(out, breakSite{rule: rule, sub: "drop-" + delimName[t.Text], tok: i, lo: t.Off, hi: t.End, repl: "", expTok: i + 1})
 				}
 			case ";", "{":
 				e := f.Info[i].Encl
@@ -442,14 +505,14 @@ func (f *File) breakSites(rule string, fresh string) []breakSite {
 					continue
 				}
 				for _, c := range []string{")", "]"} {
-					out = append(out, breakSite{rule: rule, sub: "stray" + c, tok: i, lo: t.End, hi: t.End, repl: " " + c, exact: true, expTok: -1})
+					out = append(out, breakSite{rule: rule, sub: "stray-" + delimName[c], tok: i, lo: t.End, hi: t.End, repl: " " + c, exact: true, expTok: -1})
 				}
-				out = append(out, breakSite{rule: rule, sub: "stray}", tok: i, lo: t.End, hi: t.End, repl: " }", expTok: -1})
+				out = append(out, breakSite{rule: rule, sub: "stray-brace", tok: i, lo: t.End, hi: t.End, repl: " }", expTok: -1})
 			}
 		}
 		for _, d := range f.Decls {
 			for _, c := range []string{")", "]", "}"} {
-				out = append(out, breakSite{rule: rule, sub: "stray" + c + "-module", tok: d.Start, lo: toks[d.Start].Off, hi: toks[d.Start].Off, repl: c + " ", exact: true, expTok: -1, moduleInserted: true})
+				out = append(out, breakSite{rule: rule, sub: "stray-" + delimName[c] + "-module", tok: d.Start, lo: toks[d.Start].Off, hi: toks[d.Start].Off, repl: c + " ", exact: true, expTok: -1, moduleInserted: true})
 			}
 		}
 	case "workgroup":
